@@ -141,6 +141,9 @@ def strong_cases(draw):
     ss = list(sites(v, spec))
     if not ss:
         return {'kind': 'strong', 'model': spec, 'tree': None}
+    es = [x for x in ss if x[0] == 'enum']
+    if es and draw(st.integers(0, 2)) == 0:
+        ss = es             # enum members are rare sites otherwise
     kind, path, info = draw(st.sampled_from(ss))
     tree = gen.project(v, spec)
     return {'kind': 'strong', 'model': spec, 'tree': tree, 'corruption': kind,
